@@ -5,11 +5,13 @@
 (* per configuration) did, against the decision tables of Plugins.         *)
 (*  setup {pl, proto, args, res}              res: "ok" | "err" | "panic"  *)
 (*  h {pl, proto, cfg{tftp, params}, req, pre,                             *)
-(*     obs{nil, stop, panic, roundtrip, siaddrok,                          *)
+(*     obs{nil, stop, panic, roundtrip, decodes, siaddrok,                 *)
 (*         opts [{code, present, count, valueok, changed}]}}               *)
 (* obs.opts lists every watched option code of the serialised reply:       *)
 (* valueok = its value decodes to exactly the configured arguments,        *)
-(* changed = its bytes differ from the reply before the plugin ran.        *)
+(* changed = its bytes differ from the reply before the plugin ran;        *)
+(* decodes = every watched option of the parsed reply is a value of its    *)
+(* type (the DHCPv4 codec keeps option bodies as bytes).                   *)
 (***************************************************************************)
 EXTENDS Plugins, Json
 
@@ -54,7 +56,7 @@ TraceH ==
           /\ (~o.nil /\ e.proto = 4) => o.siaddrok                       \* ... and in siaddr
      /\ ("C19" \in Lens) =>
           /\ ~o.panic                                                     \* returns without panicking
-          /\ ~o.nil => o.roundtrip                                        \* serialises and parses back to the same options
+          /\ ~o.nil => (o.roundtrip /\ o.decodes)                         \* serialises and parses back to the same options
      /\ ("C13" \in Lens) => (o.nil => o.stop)                             \* nil only together with stop
 
 (* A child process that died is an observation for which no action exists -   *)
